@@ -47,6 +47,13 @@ void use_memory_copy(E *a, const E *c, const E *d, int n) {
   sink(amc::uninitialized_copy_n(c, n, a));
 }
 
+// source and destination of different value types: the copy must convert, never reinterpret
+template <class From, class To>
+void use_memory_convert(const From *c, const From *d, To *a, int n) {
+  sink(amc::uninitialized_copy(c, d, a));
+  sink(amc::uninitialized_copy_n(c, n, a));
+}
+
 // source iterator archetypes (copy/move read through *it)
 template <class E, class It>
 void use_memory_src(It first, It last, E *dest, int n) {
